@@ -2,6 +2,10 @@
 """regenerates MANIFEST.json from the table below (kept valid at all times)"""
 import json
 CLAIMED = {
+ "C04": ("binding placement: the three scope visitors agree on scope-bearing nodes, eval/with force escapes, const cache guarded by in_with, aliased operand registers not live across another operand's code",
+         "sibling agreement over impl facts + dominance + interprocedural value flow over the bytecompiler call graph", "§5 C04"),
+ "C05": ("optimizer: duplication only under a literal-only purity test, rewrites only under Literal tests, folding evaluates literals only, DCE keeps hoisted declarations and loop initialisers",
+         "dominance rules over MIR of the optimizer passes with enum discriminants read from boa_ast", "§5 C05"),
  "C06": ("inline caches: layout change implies new shape, only cacheable slots stored, prototype-depth bookkeeping, cached slot applied only to the validated holder",
          "who-may-write + dominance + value-provenance (holder identity) rules over MIR of the property map and IC fast paths", "§5 C06"),
  "C02": ("no internal failure: the compiler cannot drop a live Register (drop bomb); every always-on arithmetic panic (÷0, %0, MIN/-1, -MIN) is guarded or has a never-zero divisor",
